@@ -33,8 +33,11 @@ import (
 	"time"
 
 	v1 "k8s.io/api/core/v1"
+	schedulingv1 "k8s.io/api/scheduling/v1"
 	"k8s.io/apimachinery/pkg/api/resource"
+	metav1 "k8s.io/apimachinery/pkg/apis/meta/v1"
 
+	queuev2 "github.com/NVIDIA/KAI-scheduler/pkg/apis/scheduling/v2"
 	pgv2alpha2 "github.com/NVIDIA/KAI-scheduler/pkg/apis/scheduling/v2alpha2"
 	"github.com/NVIDIA/KAI-scheduler/pkg/common/constants"
 
@@ -70,6 +73,7 @@ type scenario struct {
 	Pin    int      `json:"pin"`
 	Press  int      `json:"press"`
 	Run    int      `json:"run"`
+	Sit    string   `json:"sit"`
 	Var    int      `json:"var"`
 }
 
@@ -90,7 +94,7 @@ func (s *scenario) event() map[string]any {
 	}
 	return map[string]any{"ev": "Scenario", "id": s.ID, "sig": s.Sig, "hang": s.Hang, "fam": s.Fam, "queues": qs,
 		"jobq": s.JobQ, "pgmin": s.PgMin, "subs": ss, "labels": ls, "frac": s.Frac, "mem": s.Mem, "dev": s.Dev,
-		"gpu": s.Gpu, "node": s.Node, "pin": s.Pin, "press": s.Press, "run": s.Run, "var": s.Var}
+		"gpu": s.Gpu, "node": s.Node, "pin": s.Pin, "press": s.Press, "run": s.Run, "sit": s.Sit, "var": s.Var}
 }
 
 // ---------------------------------------------------------------------------------------------
@@ -153,11 +157,64 @@ func setAnn(p *v1.Pod, key string, table map[string][]string, class string, k in
 	}
 }
 
+// quota sets the deserved GPU quota of a queue (cpu / memory stay unlimited).
+func quota(q *queuev2.Queue, gpus float64) *queuev2.Queue {
+	q.Spec.Resources.GPU.Quota = gpus
+	q.Spec.Resources.GPU.OverQuotaWeight = 1
+	q.Spec.Resources.GPU.Limit = -1
+	return q
+}
+
+const arenaLabel = "verif/arena"
+
+// healthyJob: a well-formed job of n pods with `gpus` whole GPUs each, confined to the arena nodes; running pods
+// are placed on runOn[i].
+func healthyJob(c *sim.Cluster, name, queue string, n int, gpus int64, priorityClass string, runOn []string) {
+	pg := sim.PodGroup(name, queue, 1)
+	pg.Labels = map[string]string{constants.DefaultQueueLabel: queue}
+	pg.Spec.PriorityClassName = priorityClass
+	c.PodGroups = append(c.PodGroups, pg)
+	for i := 0; i < n; i++ {
+		p := sim.Pod(fmt.Sprintf("%s-%d", name, i+1), name)
+		sim.SetGPU(&p.Spec.Containers[0], gpus)
+		p.Spec.NodeSelector = map[string]string{arenaLabel: "yes"}
+		p.Spec.PriorityClassName = priorityClass
+		if i < len(runOn) {
+			p.Spec.NodeName = runOn[i]
+			p.Status.Phase = v1.PodRunning
+		}
+		c.Pods = append(c.Pods, p)
+	}
+}
+
+// build materialises a scenario. Situation "alloc": the control workload on an 8-GPU node, the malformed job
+// pending next to the (possibly malformed) node mnode, unlimited quotas - only allocate has work.
+// Every other situation (see spec/Totality.tla, Sits): a tight cluster - cnode has exactly the control workload's
+// 2 GPUs, the "arena" nodes (2 GPUs each; everything but the control workload is confined to them by a node
+// selector) are full, and the queue quotas add up to the cluster (control 2, malformed side 1, counterpart 1), so
+// that the running side is over its fair share and the pending side under it.
 func build(s *scenario) *sim.Cluster {
 	c := &sim.Cluster{}
+	arena := s.Sit != "" && s.Sit != "alloc"
+	sideQuota := 1.0
+	if s.Sit == "vconsol" {
+		sideQuota = 2
+	}
+	mkq := func(name, parent string, q float64) *queuev2.Queue {
+		if !arena {
+			return sim.Queue(name, parent)
+		}
+		return quota(sim.Queue(name, parent), q)
+	}
 	// control workload: untouched queues, node, pod group
-	c.Nodes = append(c.Nodes, sim.Node("cnode", 8, 10000))
-	c.Queues = append(c.Queues, sim.Queue("cdept", ""), sim.Queue("cteam", "cdept"))
+	cgpus := 8
+	if arena {
+		cgpus = 2
+	}
+	c.Nodes = append(c.Nodes, sim.Node("cnode", cgpus, 10000))
+	c.Queues = append(c.Queues, mkq("cdept", "", 2), mkq("cteam", "cdept", 2), mkq("rdept", "", sideQuota), mkq("rteam", "rdept", sideQuota))
+	c.PriorityClasses = append(c.PriorityClasses, &schedulingv1.PriorityClass{
+		ObjectMeta: metav1.ObjectMeta{Name: "verif-high"}, Value: 75})
 	c.PodGroups = append(c.PodGroups, sim.PodGroup("cpg", "cteam", 1))
 	cp := sim.Pod("cpod", "cpg")
 	sim.SetGPU(&cp.Spec.Containers[0], 1)
@@ -172,13 +229,25 @@ func build(s *scenario) *sim.Cluster {
 	c.Pods = append(c.Pods, cr)
 
 	// malformed side
-	c.Nodes = append(c.Nodes, malformedNode(s.Node))
+	if arena {
+		names := []string{"anode1"}
+		if s.Sit == "vconsol" {
+			names = append(names, "anode2")
+		}
+		for _, n := range names {
+			node := sim.Node(n, 2, 10000)
+			node.Labels[arenaLabel] = "yes"
+			c.Nodes = append(c.Nodes, node)
+		}
+	} else {
+		c.Nodes = append(c.Nodes, malformedNode(s.Node))
+	}
 	for _, q := range s.Queues {
 		parent := q.Parent
 		if parent == "missing" {
 			parent = missingQueue
 		}
-		c.Queues = append(c.Queues, sim.Queue(q.Name, parent))
+		c.Queues = append(c.Queues, mkq(q.Name, parent, sideQuota))
 	}
 	jobq := s.JobQ
 	if jobq == "missing" {
@@ -187,6 +256,9 @@ func build(s *scenario) *sim.Cluster {
 	pg := sim.PodGroup("mpg", jobq, int32(s.PgMin))
 	if jobq != "" {
 		pg.Labels = map[string]string{constants.DefaultQueueLabel: jobq}
+	}
+	if s.Sit == "preemptor" {
+		pg.Spec.PriorityClassName = "verif-high"
 	}
 	for _, g := range s.Subs {
 		sg := pgv2alpha2.SubGroup{Name: g.Name, MinMember: int32(g.Min)}
@@ -202,6 +274,7 @@ func build(s *scenario) *sim.Cluster {
 		pg.Spec.SubGroups = append(pg.Spec.SubGroups, sg)
 	}
 	c.PodGroups = append(c.PodGroups, pg)
+	mRunning := s.Sit == "vreclaim" || s.Sit == "vpreempt" || s.Sit == "vconsol"
 	for i := 0; i < 2; i++ {
 		p := sim.Pod(fmt.Sprintf("mpod%d", i+1), "mpg")
 		if i < len(s.Labels) && s.Labels[i] != "" {
@@ -210,8 +283,12 @@ func build(s *scenario) *sim.Cluster {
 		setAnn(p, constants.GpuFraction, gpureqcls.Frac, s.Frac, s.Var+i)
 		setAnn(p, constants.GpuMemory, gpureqcls.Mem, s.Mem, s.Var+i)
 		setAnn(p, constants.GpuFractionsNumDevices, gpureqcls.Dev, s.Dev, s.Var+i)
-		if s.Gpu > 0 {
-			sim.SetGPU(&p.Spec.Containers[0], int64(s.Gpu))
+		gpu := s.Gpu
+		if arena && gpu == 0 && s.Frac == "absent" && s.Mem == "absent" {
+			gpu = 1 // the contended resource of the arena is the GPU
+		}
+		if gpu > 0 {
+			sim.SetGPU(&p.Spec.Containers[0], int64(gpu))
 		}
 		if s.Pin == 1 {
 			p.Spec.NodeSelector = map[string]string{"kubernetes.io/hostname": "mnode"}
@@ -220,7 +297,34 @@ func build(s *scenario) *sim.Cluster {
 			p.Spec.NodeName = "mnode"
 			p.Status.Phase = v1.PodRunning
 		}
+		if arena {
+			p.Spec.NodeSelector = map[string]string{arenaLabel: "yes"}
+			if s.Sit == "preemptor" {
+				p.Spec.PriorityClassName = "verif-high"
+			}
+			if mRunning {
+				p.Spec.NodeName = "anode1"
+				if s.Sit == "vconsol" && i == 1 {
+					p.Spec.NodeName = "anode2"
+				}
+				p.Status.Phase = v1.PodRunning
+			}
+		}
 		c.Pods = append(c.Pods, p)
+	}
+	// the well-formed counterpart of the situation
+	sameQueue := jobq
+	switch s.Sit {
+	case "vreclaim":
+		healthyJob(c, "rjob", "rteam", 1, 1, "", nil)
+	case "vpreempt":
+		healthyJob(c, "hjob", sameQueue, 1, 1, "verif-high", nil)
+	case "vconsol":
+		healthyJob(c, "bjob", "rteam", 1, 2, "", nil)
+	case "reclaimer":
+		healthyJob(c, "vjob", "rteam", 2, 1, "", []string{"anode1", "anode1"})
+	case "preemptor":
+		healthyJob(c, "ljob", sameQueue, 2, 1, "", []string{"anode1", "anode1"})
 	}
 	return c
 }
